@@ -231,6 +231,23 @@ def svc_defaults() -> list[dict[str, Any]]:
     return out
 
 
+def svc_reset(tier: str) -> list[dict[str, Any]]:
+    """--reset 1: the ECU is reset after every session.  It acknowledges the reset and performs it 0 .. 450 ms later
+    (every answer takes 100 ms); the scan of the next session must not begin before the ECU has recovered."""
+    out = []
+    n = 0
+    for sessions in ([2, 3], [1, 2, 3]) if tier == "quick" else ([2, 3], [1, 2, 3], [3, 2], [2]):
+        for delay in (0.0, 0.25, 0.35, 0.45):
+            for check in (False, True) if tier != "quick" else (False,):
+                ecu = packed_ecu(offset=(n * 41) % 144)
+                ecu["reset"] = {"level": 1, "delay": delay, "latency": 0.1}
+                c = svc_case(ecu, sessions, [], {}, check, False, n, "svc-reset")
+                c["cfg"]["reset"] = 1
+                out.append(c)
+                n += 1
+    return out
+
+
 def svc_random(tier: str, seed: int, services_of: Any) -> list[dict[str, Any]]:
     out = []
     nseeds = 6 if tier == "quick" else 60
